@@ -8,6 +8,7 @@ CONSTANTS
   LP = 1
   LQ = 1
   LR = 1
+  Ext = {}
 SPECIFICATION PathsSpec
 INVARIANT DesignYRaw
 INVARIANT DesignYSpell
